@@ -17,11 +17,11 @@ res() { echo "$1" | tee -a "$log"; }
 cd "$W" || exit 2
 mkdir -p "$(dirname "$demo_path")"; cp "$demo" "$demo_path"
 # demo passes on clean tree
-if (eval "$demo_cmd --offline" >>"$log" 2>&1); then res "demo_passes_without_patch=true"; cleanok=1; else res "demo_passes_without_patch=false"; cleanok=0; fi
+if (CARGO_NET_OFFLINE=true eval "$demo_cmd" >>"$log" 2>&1); then res "demo_passes_without_patch=true"; cleanok=1; else res "demo_passes_without_patch=false"; cleanok=0; fi
 if git apply "$patch" >>"$log" 2>&1; then res "patch_applies=true"; else res "patch_applies=false"; git -C /repo worktree remove --force "$W"; exit 1; fi
-if (eval "$demo_cmd --offline" >>"$log" 2>&1); then res "demo_fails_with_patch=false"; failok=0; else res "demo_fails_with_patch=true"; failok=1; fi
+if (CARGO_NET_OFFLINE=true eval "$demo_cmd" >>"$log" 2>&1); then res "demo_fails_with_patch=false"; failok=0; else res "demo_fails_with_patch=true"; failok=1; fi
 rm -f "$demo_path"
-python3 /verif/tools/suite_diff.py "$W" >>"$log" 2>&1
+python3 /verif/tools/suite_diff.py "$W" --fast >>"$log" 2>&1
 missing=$(grep -o "missing_from_pass=[0-9]*" "$log" | tail -1 | cut -d= -f2)
 res "suite_missing_from_pass=${missing:-unknown}"
 ok=0
